@@ -211,15 +211,15 @@ CLAIMS = {
             "were registered as answer keys before solve(), derived expressions are never returned; (IDX-1) no computed index or "
             "slice bound is negative at any subscript (a silent wrap to the far edge: the 'clue in the first row/column' failure); "
             "(IDX-2 / DK) nothing raises: out-of-range subscripts and shape mismatches from exchanged height/width roles surface "
-            "on at least one orientation. (PZ-X) For twenty-three puzzles whose published rules fit in a few lines (heyawake, akari, "
-            "nurikabe, norinori, yinyang, creek, star_battle, slitherlink, masyu, gokigen, aquarium, yajilin, putteria, fillomino, lits, building, doppelblock, compass, geradeweg, view, fivecells, nurimisaki; "
+            "on at least one orientation. (PZ-X) For twenty-five puzzles whose published rules fit in a few lines (heyawake, akari, "
+            "nurikabe, norinori, yinyang, creek, star_battle, slitherlink, masyu, gokigen, aquarium, yajilin, putteria, fillomino, lits, building, doppelblock, compass, geradeweg, view, fivecells, nurimisaki, castle_wall, shakashaka; "
             "sudoku of order 2 and 3 through constraint-wise soundness plus pairwise refutation) the constraints the solver posts "
             "on tiny instances (three stacked rooms, clues on edges, 1xN boards, non-convex tanks) are decided for EVERY assignment "
             "of the answer variables (three-valued backtracking over the auxiliary variables; graph constraints posted as the native "
             "operators, whose meaning C04-C07 tie to the rank encodings) and the admitted answers must equal the grids that obey the "
             "rules as transcribed in sa/rules/pzx.py; with C02 this gives the property's statement on those instances."
         ),
-        note="Trusted: the abstract evaluator; the fixture recipes in sa/rules/c11.py (problem formats read from each module); the rule transcriptions in sa/rules/pzx.py. For the three solvers outside PZ-X (simpleloop, castle_wall, shakashaka), and for boards larger than 13 answer variables, what is constrained is not compared with the puzzle's rules.",
+        note="Trusted: the abstract evaluator; the fixture recipes in sa/rules/c11.py (problem formats read from each module); the rule transcriptions in sa/rules/pzx.py. For solve_simpleloop (outside PZ-X), and for boards larger than 13 answer variables, what is constrained is not compared with the puzzle's rules.",
         technique="static analysis: abstract evaluation of constraint construction with strict index tracking and answer-key typestate (ast)",
         ref="DESIGN.md §3 C11",
     ),
